@@ -87,7 +87,7 @@ Section Lift.
   Hypothesis Hpart : forall p, G p -> optQ (partial_tbl p).
   Hypothesis Htilde : forall gt p, G p -> optQ (tilde_tbl gt p).
   Hypothesis Hcaret : forall p, G p -> optQ (caret_tbl p).
-  Hypothesis Hhyphen : forall lo up, match lo with Some l => G l | None => True end -> G up -> optQ (hyphen_tbl lo up).
+  Hypothesis Hhyphen : forall lo up, G lo -> G up -> optQ (hyphen_tbl lo up).
   Hypothesis Hint : forall a b c, Q a -> Q b -> bs_intersect a b = Some c -> Q c.
 
   Definition resQ (x : option (option boundset * str)) : Prop := match x with Some (b, _) => optQ b | None => True end.
@@ -112,20 +112,16 @@ Section Lift.
   Lemma lift_hyphen s : resQ (hyphen_p s).
   Proof.
     unfold hyphen_p, resQ.
-    assert (Hlo : match (fst (match partial_version s with Some (p, r) => (Some p, r) | None => (None, s) end)) with
-                  | Some l => G l | None => True end).
-    { destruct (partial_version s) as [[p r]|] eqn:E; cbn; auto. eapply HG; eauto. }
-    destruct (match partial_version s with Some (p, r) => (Some p, r) | None => (None, s) end) as [lower s1]. cbn in Hlo.
+    destruct (partial_version s) as [[lower s1]|] eqn:E0; auto.
     destruct (space1 s1) as [s2|]; auto. destruct (lit1 45 s2) as [s3|]; auto.
     destruct (space1 s3) as [s4|]; auto. destruct (partial_version s4) as [[up r]|] eqn:E; auto.
-    apply Hhyphen; auto. eapply HG; eauto.
+    apply Hhyphen; eapply HG; eauto.
   Qed.
   Lemma lift_terminated p s : (forall s, resQ (p s)) -> resQ (terminated_p p s).
   Proof. intro H. unfold terminated_p. specialize (H s). destruct (p s) as [[b r]|]; cbn; auto. destruct (at_term r); cbn; auto. Qed.
   Lemma lift_simple s : optQ (fst (simple s)).
   Proof.
     unfold simple.
-    pose proof (lift_terminated hyphen_p s lift_hyphen) as H1. destruct (terminated_p hyphen_p s) as [[b r]|]; [exact H1|].
     pose proof (lift_terminated primitive_p s lift_primitive) as H2. destruct (terminated_p primitive_p s) as [[b r]|]; [exact H2|].
     pose proof (lift_terminated partial_p s lift_partial) as H3. destruct (terminated_p partial_p s) as [[b r]|]; [exact H3|].
     pose proof (lift_terminated tilde_p s lift_tilde) as H4. destruct (terminated_p tilde_p s) as [[b r]|]; [exact H4|].
@@ -151,11 +147,17 @@ Section Lift.
       destruct acc as [a|]; cbn; auto. destruct (bs_intersect a b) eqn:E; cbn; auto. apply (Hint a b); auto. }
     specialize (H (Some first) Wf). destruct (fold_left _ rest (Some first)); cbn; [constructor; [exact H|constructor]|constructor].
   Qed.
-  Lemma lift_range_p s bs r : range_p s = Some (bs, r) -> Forall Q bs.
+  Lemma lift_simples_p s bs r : simples_p s = Some (bs, r) -> Forall Q bs.
   Proof.
-    unfold range_p. pose proof (lift_simple s) as W. destruct (simple s) as [b s1]. cbn in W.
+    unfold simples_p. pose proof (lift_simple s) as W. destruct (simple s) as [b s1]. cbn in W.
     destruct (simples_tail (length s1) s1) as [[l r']|] eqn:E; [|discriminate]. intros [= <- _].
     apply lift_and_fold. apply (lift_flatten (b :: l)). constructor; auto. eapply lift_simples_tail; eauto.
+  Qed.
+  Lemma lift_range_p s bs r : range_p s = Some (bs, r) -> Forall Q bs.
+  Proof.
+    unfold range_p. pose proof (lift_hyphen s) as W. destruct (hyphen_p s) as [[b r0]|]; [|apply lift_simples_p].
+    destruct (at_alt_end r0); [|apply lift_simples_p]. intros [= <- _]. cbn in W.
+    destruct b; cbn; [constructor; [exact W|constructor]|constructor].
   Qed.
   Lemma lift_ranges_tail f : forall s l r, ranges_tail f s = Some (l, r) -> Forall Q l.
   Proof.
@@ -229,13 +231,11 @@ Proof.
   destruct p as [ma mi pa pr bl]. unfold partial_canon, caret_tbl; cbn [p_major p_minor p_patch p_pre p_build].
   intros (H1 & H2). destruct ma as [[|ma]|], mi as [mi|], pa as [pa|]; canon_crush; try exact I.
 Qed.
-Lemma hyphen_tbl_canon lo up : match lo with Some l => partial_canon l | None => True end -> partial_canon up ->
-  optQ (bs_all Pc) (hyphen_tbl lo up).
+Lemma hyphen_tbl_canon lo up : partial_canon lo -> partial_canon up -> optQ (bs_all Pc) (hyphen_tbl lo up).
 Proof.
-  destruct up as [ma mi pa pr bl]. unfold partial_canon, hyphen_tbl, hyphen_upper, pred_is_unbounded; cbn [p_major p_minor p_patch p_pre p_build].
-  intros Hl (H1 & H2).
-  destruct lo as [[lma lmi lpa lpr lbl]|]; cbn [p_major p_minor p_patch p_pre p_build] in *;
-  [destruct Hl as (L1 & L2)|]; destruct ma as [ma|], mi as [mi|], pa as [pa|]; canon_crush.
+  destruct up as [ma mi pa pr bl]. destruct lo as [lma lmi lpa lpr lbl].
+  unfold partial_canon, hyphen_tbl, hyphen_upper; cbn [p_major p_minor p_patch p_pre p_build].
+  intros (L1 & L2) (H1 & H2). destruct ma as [ma|], mi as [mi|], pa as [pa|]; canon_crush.
 Qed.
 Lemma intersect_canon a b c : bs_all Pc a -> bs_all Pc b -> bs_intersect a b = Some c -> bs_all Pc c.
 Proof. intros Ha Hb E. pose proof (bs_intersect_all Pc a b Ha Hb) as H. now rewrite E in H. Qed.
@@ -273,8 +273,8 @@ Lemma caret_tbl_not_any p : optQ not_any (caret_tbl p).
 Proof. destruct p as [ma mi pa pr bl]. unfold caret_tbl; cbn [p_major p_minor p_patch p_pre p_build]. destruct ma as [[|ma]|], mi, pa; any_crush. Qed.
 Lemma hyphen_tbl_not_any lo up : optQ not_any (hyphen_tbl lo up).
 Proof.
-  destruct up as [ma mi pa pr bl]. unfold hyphen_tbl, hyphen_upper, pred_is_unbounded; cbn [p_major p_minor p_patch p_pre p_build].
-  destruct lo, ma, mi, pa; any_crush.
+  destruct up as [ma mi pa pr bl]. unfold hyphen_tbl, hyphen_upper; cbn [p_major p_minor p_patch p_pre p_build].
+  destruct ma, mi, pa; any_crush.
 Qed.
 Lemma bmax_unb_inv a b : is_lower a = true -> is_lower b = true -> predicate (bmax a b) = Unbounded ->
   predicate a = Unbounded /\ predicate b = Unbounded.
